@@ -93,6 +93,9 @@ def run(chk):
                 kw = dict(cleaned=c['cleaned'], subsamples=subs, unpack_bits=ub, fields=(['id', 'N'] if r % 5 else 'DEFAULT_FIELDS'))
                 if r % 7 == 3:
                     kw['convert_units'] = False
+            if r % 3 == 1:
+                # the key order of the subsamples dict carries no meaning: B before A, columns first
+                kw['subsamples'] = dict(reversed(list(kw['subsamples'].items())))
             desc = f'catalog #{ci} {[[(h["nA"], h["gA"], h["mA"], h["nB"], h["mB"], h["away"]) for h in sl] for sl in cat]} (nA,gA,mA,nB,mB,away) load {kw} path={pathform}'
             payload = dict(cat=cat, kw={k2: (v if not isinstance(v, np.ndarray) else v.tolist()) for k2, v in kw.items()}, pathform=pathform, ABs=c['ABs'])
             tag = ('passthrough' if passthrough else ('cleaned' if c['cleaned'] else 'uncleaned')) + '-' + ''.join(c['ABs'])
@@ -134,6 +137,8 @@ def run(chk):
             c['table'], c['index'] = cc.twin(cat, c['mask'], abs_, cleaned)
             subs = {ab: True for ab in abs_}
             subs.update(pos=True, vel=True, pid=True)
+            if rep % 2:
+                subs = dict(reversed(list(subs.items())))
             desc = f'random catalog ({nsl} superslabs, {[len(sl) for sl in cat]} halos) cleaned={cleaned} subsamples={subs}'
             try:
                 cobj = cc.load(zd, cleaned=cleaned, subsamples=subs, fields=['id', 'N'])
